@@ -2,6 +2,7 @@
    Proofs/TagsSpec.lean. -/
 import Frugal.Tags
 import Frugal.Proofs.TagsSpec
+import Frugal.Proofs.TagsSpell
 import Frugal.Proofs.BuildCacheLemmas
 import Frugal.Props.Inst.F_skeleton_resolver
 namespace Frugal.C13
@@ -97,6 +98,21 @@ theorem annotation_consumed_to_the_end (vt : GoTy) (d : List Char) (t : Ty) (h :
 
 theorem keyword_is_a_whole_word (tag : DTag) (tv : List Char) :
     isKeyword tag tv = (keywordsOf tag).contains tv := rfl
+
+/-- an annotation that contradicts the Go type, for a field of *anonymous* struct type as well (D25): such a
+    struct answers to any name, but not to the keyword of another type — `i64`, `string`, `double`, `bool`,
+    `list`, … are mistyped annotations for it, as they are for a named struct -/
+theorem anonymous_struct_rejects_other_types (sid : Nat) (kw rest : List Char) (hk : identLike kw)
+    (hrest : stopsIdent rest) (hkw : isTypeKeyword kw = true) (hs : isKeyword .strct kw = false)
+    (hend : ∃ tok sp, readToken rest true = some (tok, sp) ∧ (tok = [] ∨ tok = [':'] ∨ tok = ['>'])) :
+    matchAnnot (.strct "" sid) .strct (kw ++ rest) = none :=
+  anon_struct_keyword_mistyped sid kw rest hk hrest hkw hs hend
+
+example : parseType (.strct "" 0) "i64".toList = none ∧ parseType (.strct "" 0) "string".toList = none ∧
+    parseType (.slice (.strct "" 0)) "list<string>".toList = none ∧
+    parseType (.map (.prim .string "string") (.strct "" 0)) "map<string:bool>".toList = none ∧
+    parseType (.strct "" 0) "Item".toList = some (.strct 0) ∧
+    parseType (.strct "" 0) "struct".toList = some (.strct 0) := by decide
 
 example : isKeyword .i64 "i6".toList = false ∧ isKeyword .i64 "6".toList = false ∧
     isKeyword .strct "t".toList = false ∧ isKeyword .strct "str".toList = false ∧
